@@ -371,3 +371,40 @@ func ruleTailCleared(c *Ctx, r *R) {
 	}
 	r.ok(good, "xsort.MergeSlices|truncates-out", fn.Pos(), "MergeSlices must use out only as out[:0] (reuse its capacity, discard its contents): appending after stale contents returns a slice that is neither sorted nor the union of the inputs")
 }
+
+var _ = late(func() {
+	p := properties["C19"]
+	p.Rules = append(p.Rules, &Rule{ID: "C19.sample-siblings", Floor: 4, Clause: "the four rSample* siblings agree on their tail: the slice handed to rShuffle is the very value that is returned (truncation to min(k, n) happens before the shuffle, never after)",
+		Run: func(c *Ctx, r *R) {
+			for _, n := range []string{"rSample", "rSampleIterator", "rSampleStream", "rSampleSlice"} {
+				fn := c.fn("xmath/xrand." + n)
+				if fn == nil {
+					r.undecided("xrand."+n+"|missing", token.NoPos, "anchor not found")
+					continue
+				}
+				var shuffled ssa.Value
+				instrs(fn, func(b *ssa.BasicBlock, i int, in ssa.Instruction) {
+					if call, ok := in.(*ssa.Call); ok {
+						if cal := staticCallee(&call.Call); cal != nil && cal.Name() == "rShuffle" {
+							shuffled = call.Call.Args[len(call.Call.Args)-1]
+						}
+					}
+				})
+				good := false
+				instrs(fn, func(b *ssa.BasicBlock, i int, in ssa.Instruction) {
+					ret, ok := in.(*ssa.Return)
+					if !ok || b.Comment == "recover" {
+						return
+					}
+					rv := returnedValue(ret, 0)
+					if isNilConst(rv) {
+						return // error return
+					}
+					if shuffled != nil && rv == shuffled {
+						good = true
+					}
+				})
+				r.ok(good, "xrand."+n+"|shuffle-what-is-returned", fn.Pos(), "the sample must be truncated to min(k, n) first and then shuffled; shuffling the untruncated buffer mixes unfilled zero slots into the returned prefix and cuts real items off")
+			}
+		}})
+})
